@@ -428,6 +428,7 @@ class Expander:
                 continue
             # aliases first: a helper called through a local alias (`value_of = self._value_of`) must be visible to the expansion
             plain_assignments(m.tree)
+            spread_keyword_dicts(m.tree)
             split_chained_assignments(m.tree)
             bound_method_aliases(m.tree)
         for modname, m in self.modules.items():
@@ -1165,6 +1166,51 @@ def fold_constant_tests(tree: ast.AST):
                             val[k] = new
                         else:
                             setattr(node, f_, new)
+
+
+def spread_keyword_dicts(tree: ast.AST) -> int:
+    """`f(**{"a": x, "b": y})` / `f(**dict(a=x, b=y))`, also through a local bound once to such a display and read only there,
+    is `f(a=x, b=y)` (same evaluation order)."""
+    n = 0
+    for fn in [x for x in ast.walk(tree) if isinstance(x, ast.FunctionDef)]:
+        binds: Dict[str, List[ast.Assign]] = {}
+        loads: Dict[str, int] = {}
+        stores: Dict[str, int] = {}
+        for x in ast.walk(fn):
+            if isinstance(x, ast.Assign) and len(x.targets) == 1 and isinstance(x.targets[0], ast.Name):
+                binds.setdefault(x.targets[0].id, []).append(x)
+            if isinstance(x, ast.Name):
+                d_ = loads if isinstance(x.ctx, ast.Load) else stores
+                d_[x.id] = d_.get(x.id, 0) + 1
+
+        def as_keywords(v):
+            if isinstance(v, ast.Dict) and v.keys and all(isinstance(k, ast.Constant) and isinstance(k.value, str) and k.value.isidentifier() for k in v.keys):
+                return [ast.keyword(arg=k.value, value=val) for k, val in zip(v.keys, v.values)]
+            if isinstance(v, ast.Call) and isinstance(v.func, ast.Name) and v.func.id == "dict" and not v.args and v.keywords and all(k.arg is not None for k in v.keywords):
+                return [ast.keyword(arg=k.arg, value=k.value) for k in v.keywords]
+            return None
+        for c in [x for x in ast.walk(fn) if isinstance(x, ast.Call)]:
+            for i, k in enumerate(list(c.keywords)):
+                if k.arg is not None:
+                    continue
+                v = k.value
+                drop = None
+                if isinstance(v, ast.Name) and len(binds.get(v.id, [])) == 1 and stores.get(v.id) == 1 and loads.get(v.id) == 1:
+                    drop = binds[v.id][0]
+                    v = drop.value
+                kws = as_keywords(v)
+                if kws is None or {x.arg for x in kws} & {x.arg for x in c.keywords if x.arg}:
+                    continue
+                c.keywords[i:i + 1] = kws
+                if drop is not None:
+                    for owner in ast.walk(fn):
+                        for field in ("body", "orelse", "finalbody"):
+                            blk = getattr(owner, field, None)
+                            if isinstance(blk, list) and drop in blk:
+                                blk[blk.index(drop)] = ast.copy_location(ast.Pass(), drop)
+                n += 1
+                break
+    return n
 
 
 def plain_assignments(tree: ast.AST):
@@ -2016,6 +2062,15 @@ def more_spellings(tree: ast.AST):
             return new
         if isinstance(c.func, ast.Name) and c.func.id == "list" and len(c.args) == 1 and not c.keywords and isinstance(c.args[0], ast.Call) and isinstance(c.args[0].func, ast.Name) and c.args[0].func.id == "sorted":
             return c.args[0]
+        # itemgetter(k) is lambda x: x[k]; attrgetter("a") is lambda x: x.a  (one literal argument)
+        if isinstance(c.func, (ast.Name, ast.Attribute)) and not c.keywords and len(c.args) == 1 and isinstance(c.args[0], ast.Constant):
+            gn = c.func.id if isinstance(c.func, ast.Name) else (c.func.attr if isinstance(c.func.value, ast.Name) and c.func.value.id == "operator" else None)
+            if gn == "itemgetter":
+                return ast.Lambda(args=ast.arguments(posonlyargs=[], args=[ast.arg(arg="_g__x")], kwonlyargs=[], kw_defaults=[], defaults=[]),
+                                  body=ast.Subscript(value=ast.Name(id="_g__x", ctx=ast.Load()), slice=c.args[0], ctx=ast.Load()))
+            if gn == "attrgetter" and isinstance(c.args[0].value, str) and c.args[0].value.isidentifier():
+                return ast.Lambda(args=ast.arguments(posonlyargs=[], args=[ast.arg(arg="_g__x")], kwonlyargs=[], kw_defaults=[], defaults=[]),
+                                  body=ast.Attribute(value=ast.Name(id="_g__x", ctx=ast.Load()), attr=c.args[0].value, ctx=ast.Load()))
         # (lambda a, b: E)(x, y) is E[a := x, b := y] for plain arguments (or parameters read once)
         if isinstance(c.func, ast.Lambda) and not c.keywords and not any(isinstance(a_, ast.Starred) for a_ in c.args) and len(c.args) == len(c.func.args.args) \
                 and not c.func.args.vararg and not c.func.args.kwarg and not c.func.args.kwonlyargs and not c.func.args.defaults:
